@@ -129,6 +129,27 @@ func ApplyImpl(s *wtxmgr.Store, ns walletdb.ReadWriteBucket, b *ledger.Built, e 
 			}
 		}
 		return nil
+	case "recredit":
+		// repeated delivery of the credits of a known transaction under its
+		// current incidence (block found through the store's own lookup)
+		d, err := s.TxDetails(ns, &b.Hash[e.T])
+		if err != nil || d == nil {
+			return err
+		}
+		var blk *wtxmgr.BlockMeta
+		if d.Block.Height >= 0 {
+			bm := d.Block
+			blk = &bm
+		}
+		for o, os := range b.U.Txs[e.T].Outs {
+			if !os.Credit {
+				continue
+			}
+			if err := s.AddCredit(ns, b.Rec[e.T], blk, uint32(o), os.Change); err != nil {
+				return err
+			}
+		}
+		return nil
 	case "disc":
 		return s.Rollback(ns, int32(e.H))
 	case "abandon":
@@ -198,9 +219,18 @@ type stateRec struct {
 }
 
 // Explore runs the BFS for one universe.
-func Explore(env *Env, b *ledger.Built, cfg Config, report Report) (Stats, error) {
+func Explore(env *Env, b *ledger.Built, cfg Config, outerReport Report) (Stats, error) {
 	var st Stats
 	u := b.U
+	// A broken tree can make the state space unbounded (e.g. a no-op event
+	// that grows a counter). Once a universe has produced violations there is
+	// no point in exhausting it: stop after a handful (the run is then
+	// reported with exhaustive:false).
+	nviol := 0
+	report := func(prop, sig, msg string, u *ledger.Universe, hist []ledger.Event) {
+		nviol++
+		outerReport(prop, sig, msg, u, hist)
+	}
 	seen := map[[32]byte]int{}
 	var states []*stateRec
 	var queue []int
@@ -302,7 +332,7 @@ func Explore(env *Env, b *ledger.Built, cfg Config, report Report) (Stats, error
 				report("C01", "event-refused:"+e.Kind,
 					fmt.Sprintf("chain-consistent event refused or failed: %v", err), u, h2)
 			}
-			if cfg.MaxStates > 0 && len(states) >= cfg.MaxStates {
+			if (cfg.MaxStates > 0 && len(states) >= cfg.MaxStates) || nviol >= 40 {
 				st.Capped = true
 				queue = nil
 				break
